@@ -202,6 +202,11 @@ class Check(PropCheck):
     def shrink(self, d):
         return AC.shrink_case(d)
 
+    def extra_obligations(self):
+        C = AC.consts()
+        ok = 'class' not in C.TAG_ITEM_BINARY_ATTRIBUTES and 'class' not in C.TAG_ITEM_BINARY_ATTRIBUTES_STRING_ATTR
+        return [("ClassPlain (hypothesis of the C09 view theorems): 'class' is not listed as a boolean attribute in constants.py", ok)]
+
     # ---- both sides --------------------------------------------------------------------------
     def encode(self, d):
         return AC.encode(d)
